@@ -1,6 +1,7 @@
 package rules
 
 import (
+	"go/constant"
 	"go/token"
 	"go/types"
 	"strings"
@@ -243,4 +244,75 @@ func firstPos(b *ssa.BasicBlock) token.Pos {
 		}
 	}
 	return token.NoPos
+}
+
+// paramRoot returns the value that access paths through parameter p are
+// rooted at: the local spill slot when go/ssa spilled the (struct-valued or
+// captured) parameter, else the parameter itself.
+func paramRoot(p *ssa.Parameter) ssa.Value {
+	for _, ref := range *p.Referrers() {
+		if st, ok := ref.(*ssa.Store); ok && st.Val == p {
+			if al, ok := st.Addr.(*ssa.Alloc); ok && !al.Heap {
+				return al
+			}
+		}
+	}
+	return p
+}
+
+// freeVar returns the free variable of closure fn with the given name.
+func freeVar(fn *ssa.Function, name string) *ssa.FreeVar {
+	for _, fv := range fn.FreeVars {
+		if fv.Name() == name {
+			return fv
+		}
+	}
+	return nil
+}
+
+// closureOf returns the anonymous functions created directly inside fn.
+func closuresOf(fn *ssa.Function) []*ssa.Function { return fn.AnonFuncs }
+
+// strPrefixGuard is the fact strings.HasPrefix(x, prefix) for x accepted by m.
+func strPrefixGuard(name string, m func(ssa.Value) bool, prefixes ...string) core.Guard {
+	return core.BoolCall("HasPrefix("+name+")", func(c *ssa.Call) bool {
+		if core.CalleeName(c.Common()) != "strings.HasPrefix" {
+			return false
+		}
+		s, ok := core.ConstString(c.Call.Args[1])
+		if !ok {
+			return false
+		}
+		for _, p := range prefixes {
+			if s == p && m(c.Call.Args[0]) {
+				return true
+			}
+		}
+		return false
+	})
+}
+
+// constOf returns the value of a package-level string constant of the module
+// root package.
+func (c *Ctx) rootConst(name string) string {
+	obj := c.P.Mod[mod].Types.Scope().Lookup(name)
+	if cst, ok := obj.(*types.Const); ok {
+		return constantString(cst)
+	}
+	return ""
+}
+
+func constantString(c *types.Const) string {
+	if c.Val().Kind() == constant.String {
+		return constant.StringVal(c.Val())
+	}
+	return c.Val().ExactString()
+}
+
+func structOfType(t types.Type) *types.Struct {
+	if p, ok := t.Underlying().(*types.Pointer); ok {
+		t = p.Elem()
+	}
+	st, _ := t.Underlying().(*types.Struct)
+	return st
 }
